@@ -70,6 +70,9 @@ def _src_shard(items, targets):
     for idx, (src, origin) in enumerate(items):
         ts = [targets[(idx + k) % len(targets)] for k in range(3)] if len(targets) > 3 else targets
         plan = [(e, None) for e in ENTRIES_SRC[:-1]] + [("compile", t) for t in ts]
+        if origin == "mistake":
+            # wrong in type / arity / place: the stages after parsing are what these reach
+            plan = [("fmt", None), ("compile", ts[0]), ("compile", ts[1 % len(ts)])]
         for (entry, target) in plan:
             r = call_entry(w, entry, src, target)
             obs["calls"] += 1
@@ -320,6 +323,10 @@ def run(tier, seed):
     # every expression kind in every syntactic slot (most do not resolve: the error paths of every stage are driven)
     items += [(src, "gnest") for _, src in (gnest.two_level() if tier == "quick" else gnest.programs(3))]
     items += [(src, "gnest") for _, src in gnest.ident_programs()] + [(src, "gnest") for _, src in gnest.type_programs()]
+    # well-formed text that is wrong in type, arity or place (plausible user mistakes): never attributed to KF-C12-9
+    from ..gen import gmistake
+    mistakes = gmistake.programs(tier)
+    items += [(src, "mistake") for _, src in mistakes]
     n_mut = 4000 if tier == "quick" else 150000
     for _ in range(n_mut):
         items.append((gtext.mutate(rng, rng.choice(base), rng.choice([1, 1, 2, 3])), "mutant"))
